@@ -115,11 +115,15 @@ def run_oracle(scn, tr):
         h_ = e["search_mesh"]
         lo = np.where(np.isfinite(e["lb"]), h_ * np.ceil(e["lb"] / h_ - 1e-9), -np.inf)
         hi = np.where(np.isfinite(e["ub"]), h_ * np.floor(e["ub"] / h_ + 1e-9), np.inf)
-        if allx.size and np.any(np.abs(allx / h_ - np.round(allx / h_)) > 1e-6):
-            j = int(np.argmax(np.any(np.abs(allx / h_ - np.round(allx / h_)) > 1e-6, axis=1)))
+        # (meshes that are not powers of two - poll_mesh_multiplier = 3 - are not exact in floating point: relative tolerance)
+        off = np.abs(allx / h_ - np.round(allx / h_)) > np.maximum(1e-6, 16 * np.finfo(float).eps * np.abs(allx / h_)) if allx.size else np.zeros((0, 1), bool)
+        if allx.size and np.any(off):
+            j = int(np.argmax(np.any(off, axis=1)))
             v.append(viol("b:candidate-off-the-search-mesh", f"{e['cls']}: candidate {allx[j].tolist()} is not a node of the search mesh {h_}"))
-        if allx.size and not (np.all(allx >= lo) and np.all(allx <= hi)):
-            bad = allx[~np.all((allx >= lo) & (allx <= hi), axis=1)][0]
+        # (a few ulps of slack: h * ceil(lb / h) and the run's own lb_search + h differ in the last bit when h is not a power of two)
+        slk = 8 * np.finfo(float).eps * np.maximum(1.0, np.abs(allx)) if allx.size else 0.0
+        if allx.size and not (np.all(allx >= lo - slk) and np.all(allx <= hi + slk)):
+            bad = allx[~np.all((allx >= lo - slk) & (allx <= hi + slk), axis=1)][0]
             v.append(viol("b:candidate-outside-search-box", f"{e['cls']}: candidate {bad.tolist()} outside [{lo.tolist()}, {hi.tolist()}]"))
         if cs is not None and vt is not None and allx.size:
             c = T.violation(cs, vt.inverse_transf(allx))
@@ -274,11 +278,16 @@ def body_hedge(case):
                 oracle_evals=len(case["steps"]), sample=dict(gamma=case["gamma"], tol_fun=case["tol_fun"], steps=case["steps"][:4]))
 
 
+ADV_EXCLUDE = ()
+
+
 def plan(tier):
-    return [("mask", 16), ("hedge", 8), ("runs", 16), ("thinned", 16)] + ([("fuzz", 16)] if tier == "thorough" else [])
+    return [("mask", 16), ("hedge", 8), ("runs", 16), ("thinned", 16), ("advopts", 16)] + ([("fuzz", 16)] if tier == "thorough" else [])
 
 
 def run_part(res, part, tier, seed, shard, nshards):
+    if part == "advopts":
+        return runlevel.adv_sweep(res, PROFILE, tier, seed, shard, nshards, body_run, exclude=ADV_EXCLUDE)
     if part == "fuzz":
         # coverage-guided campaign (atheris/libFuzzer) on the same Hypothesis test, empty corpus, fixed -runs and -seed
         return engine.run_fuzz_part(res, "C18", "fuzz", 20000, seed, shard)
@@ -293,7 +302,7 @@ def run_part(res, part, tier, seed, shard, nshards):
 
 
 def minimise(part, tier, sig, case, seed):
-    if part in ("runs", "thinned"):
+    if part in ("runs", "thinned", "advopts"):
         return runlevel.field_minimise(case, sig, body_run, max_runs=12 if tier == "quick" else 40)
     if part in ("hedge", "fuzz"):
         m = engine.hyp_minimise(hedge_histories(), lambda c: any(engine.signature(x) == sig for x in run_hedge(c)[0]), 4000, seed)
@@ -302,7 +311,7 @@ def minimise(part, tier, sig, case, seed):
 
 
 def replay(part, case):
-    if part in ("runs", "thinned"):
+    if part in ("runs", "thinned", "advopts"):
         return runlevel.replay_body(body_run, case)
     if part in ("hedge", "fuzz"):
         return run_hedge(case)[0]
